@@ -125,7 +125,13 @@ class Relation(tuple):
             xid, yid = _ids
             X = bitsets.meta.bitset(xname, xmembers, xid, Vector, None, Vectors)  # noqa: N806
             Y = bitsets.meta.bitset(yname, ymembers, yid, Vector, None, Vectors)  # noqa: N806
-        else:
+            if hasattr(X, 'prime') or hasattr(Y, 'prime'):
+                # never re-pair the classes of a live relation (class-level
+                # prime/double would be re-bound; ids from another process
+                # can coincide with ours)
+                _ids = None
+
+        if _ids is None:
             X = bitsets.bitset(xname, xmembers, Vector, tuple=Vectors)  # noqa: N806
             Y = bitsets.bitset(yname, ymembers, Vector, tuple=Vectors)  # noqa: N806
 
